@@ -85,9 +85,9 @@ def instrument(inp, out, entry, enforce, replace, loops_file, log, timeout=300, 
 CBMC_FLAGS = ['--conversion-check', '--pointer-overflow-check', '--unwinding-assertions', '--no-malloc-may-fail']
 
 
-def cbmc(gb, log, timeout, extra=None, trace=True):
+def cbmc(gb, log, timeout, extra=None, trace=True, flags=None):
     """returns dict: {'props': [ {name, description, status, location, trace?} ], 'seconds', 'raw_tail'}"""
-    cmd = ['cbmc', gb] + CBMC_FLAGS + ['--json-ui']
+    cmd = ['cbmc', gb] + (CBMC_FLAGS if flags is None else flags) + ['--json-ui']
     if trace:
         cmd += ['--trace']
     if extra:
